@@ -685,6 +685,31 @@ func (e fixRelinEvaluator) MulLate(op0, op1, opOut *rlwe.Ciphertext) (err error)
 	return
 }
 
+// EQLEN control: a prefix equals the whole
+type seqT []uint64
+
+func (a seqT) Equal(b seqT) bool {
+	for i := range a {
+		if a[i] != b[i] {
+			return false
+		}
+	}
+	return true
+}
+
+// LOSTSTORE control (via): the inner pointer method allocates into the value receiver's private copy
+type inner struct{ meta *int }
+
+func (in *inner) init() {
+	if in.meta == nil {
+		in.meta = new(int)
+	}
+}
+
+type holder struct{ inner }
+
+func (h holder) Fill() { h.inner.init() }
+
 func rnsBad(r *ring.Ring, v uint64) (rns ring.RNSScalar) {
 	rns = make(ring.RNSScalar, r.Level()+1)
 	for i := range rns {
